@@ -768,7 +768,7 @@ def run(ck):
                       'value per identifier (checked by functionalb on every execute case), and the start store does not '
                       'contradict it', 'C14_closed_barrier_*: Python scoping (wf [] p)']
     rng = ck.rng
-    nprog = ck.n(200, 1800)
+    nprog = ck.n(180, 1800)
     ndeep = ck.n(8, 50)
     niter = ck.n(10, 60)
     cap = ck.n(36, 80)
@@ -802,7 +802,7 @@ def run(ck):
                 pr.executes(rng, root, nexec)
                 if pr.nb > 0:
                     pr.blocked_runs(rng, root, 2 if name.startswith('gen') else 3)
-                pr.sleep_untils(rng, root, 2)
+                pr.sleep_untils(rng, root, 2 if (pr.nb > 0 or pr.large) else 1)
                 init_cases.append('(%s,\n [%s])' % (pr.term, ';\n  '.join(pr.init_obs)))
                 exec_cases.append('(%s,\n [%s],\n [%s],\n [%s])' % (pr.term, ';\n  '.join(pr.exec_obs), ';\n  '.join(pr.lrun_obs), ';\n  '.join(pr.su_obs)))
                 init_runs.append(pr)
